@@ -537,7 +537,11 @@ class DiameterURIType(OctetStringType):
 
     def parser_data(self, data):
         if isinstance(data, bytes):
-            data = data.decode("utf-8")
+            try:
+                data = data.decode("utf-8")
+            except UnicodeDecodeError:
+                raise DataTypeError("invalid data format. Data MUST be "\
+                                    "UTF-8 encoded")
 
         elif isinstance(data, str):
             data = data
